@@ -29,29 +29,7 @@ impl Prop for C14 {
         // configurations the muxer rejects, interleaved with the valid ones: a rejected
         // add_track must not disturb what is reported for the tracks added after it
         if r.chance(1, 8) {
-            let n_add = sc.track_count();
-            if n_add > 0 {
-                let at = sc.ops.iter().position(|op| matches!(op, Op::AddTrack(_))).unwrap_or(0) + if r.chance(1, 2) { 0 } else { 1 };
-                if let Some(Op::AddTrack(t)) = sc.ops.iter().find(|op| matches!(op, Op::AddTrack(_))) {
-                    let mut bad = t.clone();
-                    match r.below(3) {
-                        0 => bad.timescale = 0,
-                        1 => {
-                            bad.kind = Kind::Avc;
-                            bad.sps = vec![0x67; r.below(4) as usize];
-                        }
-                        _ => {
-                            bad.kind = Kind::Avc;
-                            bad.pps = vec![0x68; 70_000];
-                        }
-                    }
-                    let at = at.min(sc.ops.len() - 1);
-                    // insert only in front of tracks (ids written to must stay those of accepted tracks)
-                    if matches!(sc.ops.get(at), Some(Op::AddTrack(_))) || at == 0 {
-                        sc.ops.insert(at, Op::AddTrack(bad));
-                    }
-                }
-            }
+            inject_rejected_add_track(&mut sc, &mut r);
         }
         // a very long history of tiny samples with maximal durations: the summed media duration
         // times 10^6 passes 2^64 (4295+ samples) - cheap to mux, and only the accessors are read
